@@ -98,7 +98,7 @@ pub fn spec_for(prop: &str) -> Option<Spec> {
     let cleanish = prof(|p| { p.p_fail = 30; p.p_abort = 20; });
     let common_assumptions = vec![
         "the harness's simulated project (deterministic job behaviours, disk, temp store, ledger) is the ground truth; jobs only depend on declared, non-ignored inputs",
-        "graphs of at most 8 (quick) / 12 (thorough) jobs, chains of at most 5 / 8 evaluations, four comparison configurations, two input-name conventions",
+        "graphs of at most 8 jobs and chains of at most 5 evaluations (quick; a quarter of the scenarios: 11 jobs, 6 evaluations) / 12 jobs and 8 evaluations (thorough), four comparison configurations, two input-name conventions",
         "the driver follows the call protocol used by python/pypipegraph2/runner.py and src/tests.rs",
         "generated search: absence of a violation is shown only for the cases explored",
     ];
@@ -319,6 +319,11 @@ pub fn run_generated(spec: &Spec, cases: usize, seed: u64, threads: usize, large
             if large {
                 profile.max_slots = 12;
                 profile.max_steps = 8;
+            } else if t % 4 == 3 {
+                // a quarter of the quick tier's threads works on the larger universe too (structures that
+                // need nine and more jobs are otherwise reached by motifs and the thorough tier only)
+                profile.max_slots = 11;
+                profile.max_steps = 6;
             }
             let prop = spec.prop;
             sc.spawn(move || {
